@@ -302,6 +302,18 @@ def install(w):
         return v
     w.builtins["bi:zip"] = b_zip
 
+    def b_next(it, f, args, kw, node):
+        """next(<comprehension result>, default): the first element, or the default."""
+        from .sym import VList
+        if len(args) != 2 or not isinstance(args[0], VList):
+            raise Unsupported("next() other than next(<generator expression>, default)")
+        w.trusted_used.add("next(gen, default): the first element the generator yields, else default")
+        L = it.st.lists[args[0].oid]
+        if it.decide(L.len > 0):
+            return it.index(args[0], __import__("pyvc.sym", fromlist=["VInt"]).VInt(0), node)
+        return args[1]
+    w.builtins["bi:next"] = b_next
+
     def b_exc_info(it, f, args, kw, node):
         w.trusted_used.add("sys.exc_info(): a 3-tuple of unknown values")
         return _VTuple([it.fresh_dyn("exc_type"), it.fresh_dyn("exc_value"), it.fresh_dyn("exc_tb")])
